@@ -63,6 +63,9 @@ pub struct ReqCfg {
     /// clock is advanced there first, as part of the canonical schedule)
     #[serde(default)]
     pub at_ms: Option<i64>,
+    /// the handler's result is an error (a rejection), not a value
+    #[serde(default)]
+    pub fails: bool,
 }
 
 impl ReqCfg {
@@ -74,6 +77,7 @@ impl ReqCfg {
             hk: HKind::Run,
             cancel: false,
             at_ms: None,
+            fails: false,
         }
     }
     pub fn cancel_of(id: u64) -> Self {
@@ -197,6 +201,7 @@ pub struct GateShared {
     log: Rc<Log>,
     gates: RefCell<BTreeMap<u32, (bool, Option<Waker>)>>,
     panics: RefCell<BTreeSet<u32>>,
+    fails: BTreeSet<u32>,
 }
 
 pub struct HandlerPanic;
@@ -220,6 +225,10 @@ impl Future for Gate {
             drop(g);
             self.done = true;
             self.sh.log.push(Rec::N("hfinish", vec![self.p as i128]));
+            if self.sh.fails.contains(&self.p) {
+                // (the detail carries the instance's token, as the value of an Ok does)
+                return Poll::Ready(Err(ServerError::new(std::io::ErrorKind::InvalidInput, format!("handler-err:{}", self.p))));
+            }
             Poll::Ready(Ok(5000 + self.p))
         } else {
             e.1 = Some(cx.waker().clone());
@@ -386,6 +395,7 @@ impl World {
                     .map(|(i, _)| i as u32)
                     .collect(),
             ),
+            fails: cfg.reqs.iter().enumerate().filter(|(_, r)| r.fails).map(|(i, _)| i as u32).collect(),
         });
         let bc: BC = BaseChannel::new(
             server::Config {
@@ -534,8 +544,8 @@ impl World {
         // instances that have been answered (responses carry the handler's token; refusals carry none)
         let (by_token, refusals) = {
             let c = self.core.borrow();
-            let by_token: Vec<u32> = all.iter().map(|r| r.1).filter(|p| c.wire.iter().any(|m| matches!(m, Msg::Resp { id: rid, body: Ok(t) } if *rid == id && *t == 5000 + *p))).collect();
-            let refusals = c.wire.iter().filter(|m| matches!(m, Msg::Resp { id: rid, body: Err(_) } if *rid == id)).count();
+            let by_token: Vec<u32> = all.iter().map(|r| r.1).filter(|p| c.wire.iter().any(|m| matches!(m, Msg::Resp { id: rid, body: Ok(t) } if *rid == id && *t == 5000 + *p) || matches!(m, Msg::Resp { id: rid, body: Err((_, d)) } if *rid == id && *d == format!("handler-err:{p}")))).collect();
+            let refusals = c.wire.iter().filter(|m| matches!(m, Msg::Resp { id: rid, body: Err((_, d)) } if *rid == id && !d.starts_with("handler-err:"))).count();
             (by_token, refusals)
         };
         let earlier: Vec<&(u64, u32, i64)> = all.iter().copied().filter(|r| !by_token.contains(&r.1)).collect();
@@ -575,8 +585,8 @@ impl World {
         let all: Vec<(u64, u32, i64)> = st.sent_reqs.iter().filter(|r| r.0 == id && !truly_ignored(&r.1)).cloned().collect();
         let (by_token, refusals) = {
             let c = self.core.borrow();
-            let by_token: Vec<u32> = all.iter().map(|r| r.1).filter(|p| c.wire.iter().any(|m| matches!(m, Msg::Resp { id: rid, body: Ok(t) } if *rid == id && *t == 5000 + *p))).collect();
-            let refusals = c.wire.iter().filter(|m| matches!(m, Msg::Resp { id: rid, body: Err(_) } if *rid == id)).count();
+            let by_token: Vec<u32> = all.iter().map(|r| r.1).filter(|p| c.wire.iter().any(|m| matches!(m, Msg::Resp { id: rid, body: Ok(t) } if *rid == id && *t == 5000 + *p) || matches!(m, Msg::Resp { id: rid, body: Err((_, d)) } if *rid == id && *d == format!("handler-err:{p}")))).collect();
+            let refusals = c.wire.iter().filter(|m| matches!(m, Msg::Resp { id: rid, body: Err((_, d)) } if *rid == id && !d.starts_with("handler-err:"))).count();
             (by_token, refusals)
         };
         let earlier: Vec<(u64, u32, i64)> = all.iter().cloned().filter(|r| !by_token.contains(&r.1)).collect();
